@@ -245,11 +245,15 @@ ARENA = {
     'C01': dict(
         x=['block-outside-owned-memory', 'block-misaligned', 'live-blocks-overlap', 'block-smaller-than-requested', 'panic'],
         mism=['result-block', 'result-kind', 'stats'],
+        quick_x=(160, 50),
+        search_x=True,
         note='invariant preservation proved for EVERY modelled operation under its contract and lifted to all histories (ArenaInv2.run_inv), also to histories in which the owners divide live blocks (ArenaSplit.xrun_inv: split-off parts are separate live blocks; the harness splits blocks and then deallocates / grows / shrinks the parts); partial only in that the model itself is tied to the code by correspondence'),
     'C02': dict(
         x=['block-contents-changed', 'grow-lost-contents', 'shrink-lost-contents', 'zeroed-allocation-not-zero',
            'grow-zeroed-tail-not-zero', 'MODELUB', 'panic'],
         mism=['block-contents', 'result-block'],
+        quick_x=(160, 50),
+        search_x=True,
         note='frame and contents proved for allocate/allocate_zeroed/fill, all non-writing operations and every branch of grow(_zeroed)/shrink incl. that the bytes of all other live blocks are untouched'),
     'C03': dict(
         x=['scope-exit-did-not-restore-allocated', 'scope-exit-did-not-restore-position', 'scope-exit-released-a-chunk',
